@@ -473,6 +473,13 @@ func (s *Sim) censusBeforeCancel(before map[string]string) {
 		if v.r.Kind != KUnary && !v.single && v.terminal.Err.IsNil() {
 			return
 		}
+		if v.terminal.Err.Class == "error" {
+			for _, sd := range v.hSend {
+				if sd.Msg != nil && sd.Msg.Kind == 4 {
+					return // same: a response that cannot be encoded could not be copied into the caller's message
+				}
+			}
+		}
 	}
 	synctest.Wait()
 	after := libGoroutines()
